@@ -399,3 +399,73 @@ Definition stmt_ok (s : stmt) : bool :=
   match s with SAssign x _ e => var_ok x && expr_ok e | SAtom a => atom_ok a end.
 Definition rule_ok (r : rule) : bool := expr_ok (rwhen r) && forallb stmt_ok (rthen r).
 Definition rules_ok (rs : list rule) : bool := forallb rule_ok rs.
+
+(* ---- removed rules (engine commit 01c7ce8) ----
+   RuleEntry.Deleted is not a field of the stream.  RemoveRuleEntry renames a removed rule to
+   "Deleted_" ++ <uuid> and sets the flag; BuildKnowledgeBase sets Deleted exactly for rule
+   names of that form (isTombstoneName: the prefix, then 36 characters that uuid.Parse accepts:
+   hex digits with '-' at positions 8, 13, 18, 23). *)
+Definition tombstone_prefix : string := "Deleted_".
+Definition uuid_length : nat := 36.
+
+Definition is_hex (c : ascii) : bool :=
+  let n := N_of_ascii c in
+  ((48 <=? n)%N && (n <=? 57)%N) || ((97 <=? n)%N && (n <=? 102)%N) || ((65 <=? n)%N && (n <=? 70)%N).
+Definition is_dash (c : ascii) : bool := (N_of_ascii c =? 45)%N.
+
+Fixpoint uuid_chars (i : nat) (s : string) : bool :=
+  match s with
+  | EmptyString => true
+  | String c s' =>
+      (if orb (Nat.eqb i 8) (orb (Nat.eqb i 13) (orb (Nat.eqb i 18) (Nat.eqb i 23))) then is_dash c else is_hex c)
+      && uuid_chars (S i) s'
+  end.
+
+Definition is_uuid (s : string) : bool := Nat.eqb (String.length s) uuid_length && uuid_chars 0 s.
+
+Fixpoint strip_prefix (p s : string) : option string :=
+  match p with
+  | EmptyString => Some s
+  | String c p' => match s with
+                   | String d s' => if Ascii.eqb c d then strip_prefix p' s' else None
+                   | EmptyString => None
+                   end
+  end.
+
+Definition is_tombstone_name (name : string) : bool :=
+  match strip_prefix tombstone_prefix name with
+  | Some rest => is_uuid rest
+  | None => false
+  end.
+
+(* a rule entry of a knowledge base: the rule and its Deleted flag *)
+Record kb_entry := { ke_rule : rule; ke_deleted : bool }.
+
+(* BuildKnowledgeBase: the rules of the catalog, each flagged by its name *)
+Definition entries_of_catalog (c : catalog) : res (list kb_entry) :=
+  do rs <- kb_of_catalog c;
+  Ok (map (fun r => {| ke_rule := r; ke_deleted := is_tombstone_name (rname r) |}) rs).
+
+(* MakeCatalog does not look at the flag *)
+Definition catalog_of_entries (name version : string) (es : list kb_entry) : catalog :=
+  catalog_of_kb name version (map ke_rule es).
+
+(* what every knowledge base satisfies: the flag is set exactly on tombstones *)
+Definition entry_consistent (e : kb_entry) : bool := Bool.eqb (ke_deleted e) (is_tombstone_name (rname (ke_rule e))).
+Definition entries_consistent (es : list kb_entry) : bool := forallb entry_consistent es.
+
+(* KnowledgeLibrary.RemoveRuleEntry / KnowledgeBase.RemoveRuleEntry with the fresh uuid u *)
+Definition rename_rule (n : string) (r : rule) : rule :=
+  {| rname := n; rdesc := rdesc r; rsal := rsal r; rwhen := rwhen r; rthen := rthen r |}.
+Fixpoint remove_rule (u name : string) (es : list kb_entry) : list kb_entry :=
+  match es with
+  | [] => []
+  | e :: es' =>
+      if String.eqb (rname (ke_rule e)) name
+      then {| ke_rule := rename_rule (tombstone_prefix ++ u) (ke_rule e); ke_deleted := true |} :: es'
+      else e :: remove_rule u name es'
+  end.
+
+(* a rule name of the grammar (SIMPLENAME) has no '-' *)
+Fixpoint no_dash (s : string) : bool :=
+  match s with EmptyString => true | String c s' => negb (is_dash c) && no_dash s' end.
